@@ -211,9 +211,10 @@ def protoFamily (mu : Mut) (ts : Option Nat) (fam : Bytes) (v : Inner) : CV :=
         (if mu.deleteOneVersion then some .oneVersion else some .multipleVersions)
     else none
   let v' : List (Bytes × Bytes) :=
-    match v with
-    | none => if mu.kind = .delete then emptyQualifier else []   -- `if v == nil { v = emptyQualifier }` sits inside the delete / len(v)==0 arm
-    | some l => l
+    if mu.kind = .delete ∧ len = 0 then emptyQualifier   -- `v = emptyQualifier` in the delete / len(v)==0 arm
+    else match v with
+      | none => []
+      | some l => l
   ⟨fam, v'.map fun (k1, v1) => ⟨k1, v1, ts, dt⟩⟩
 
 /-- `(*Mutate).valuesToProto(ts)` iterating `m.values` in the order of `values`. -/
@@ -222,9 +223,8 @@ def valuesToProto (mu : Mut) (values : VMap) (ts : Option Nat) : List CV :=
 
 /-- First pass of `valuesToCellblocks`: the inner map as counted. -/
 def countedInner (mu : Mut) (v : Inner) : List (Bytes × Bytes) :=
-  match v with
-  | none => if mu.kind = .delete then emptyQualifier else []
-  | some l => l
+  let l := match v with | none => [] | some l => l
+  if l.length = 0 ∧ mu.kind = .delete then emptyQualifier else l
 
 /-- Second pass: type byte and the inner map as written. -/
 def writtenInner (mu : Mut) (v : Inner) : UInt8 × List (Bytes × Bytes) :=
@@ -232,7 +232,7 @@ def writtenInner (mu : Mut) (v : Inner) : UInt8 × List (Bytes × Bytes) :=
     let len := match v with | none => 0 | some l => l.length
     if len = 0 then
       let mt := if mu.deleteOneVersion then Gen.Cell.deleteFamilyVersionType else Gen.Cell.deleteFamilyType
-      (UInt8.ofNat mt, match v with | none => emptyQualifier | some l => l)
+      (UInt8.ofNat mt, emptyQualifier)
     else
       let mt := if mu.deleteOneVersion then Gen.Cell.deleteType else Gen.Cell.deleteColumnType
       (UInt8.ofNat mt, match v with | none => [] | some l => l)
@@ -344,16 +344,17 @@ judge both implementation outputs against the input, and by `encodings_agree`). 
 def intendedCells (mu : Mut) (values : VMap) : List Cell :=
   values.flatMap fun (fam, v) =>
     let isDel := mu.kind = .delete
-    let empty := match v with | none => true | some l => l.isEmpty
+    let empty : Bool := match v with | none => true | some l => l.isEmpty
     let typ : UInt8 :=
       if isDel then
         if empty then (if mu.deleteOneVersion then 10 else 14)
         else (if mu.deleteOneVersion then 8 else 12)
       else 4
     let l : List (Bytes × Bytes) :=
-      match v with
-      | none => if isDel then [([], [])] else []
-      | some l => l
+      if isDel ∧ empty = true then [([], [])]   -- a family named without any qualifier: the whole family
+      else match v with
+        | none => []
+        | some l => l
     l.map fun (q, x) =>
       ⟨mu.key, fam, q, if mu.timestamp = two64 - 1 then latestTimestamp else mu.timestamp, typ, x⟩
 
